@@ -199,3 +199,51 @@ def perc_record(rng, b, E, perc):
         exp_fs = (np.array(rec['wrapped']) + 0.5) / np.array(E.shape)
         rec['fracInCell'] = bool(np.all((fs >= 0) & (fs < 1)) and np.allclose(fs, exp_fs, atol=1e-12))
     return rec
+
+
+def channel_grid(rng):
+    """A grid with a percolating channel, walls, and an isolated pocket (a peak from which no percolating path exists).
+    Returns (E, peaks ordered pocket first, then percolating peaks of different cost, cheapest last or in the middle, perc)."""
+    axis = int(rng.integers(0, 3))               # percolation axis
+    L = int(rng.integers(3, 6))
+    dims = [1, 1, 1]
+    dims[axis] = L
+    other = (axis + 1) % 3
+    dims[other] = 4                              # rows: 0 channel, 1 wall, 2 pocket row, 3 wall
+    E = np.full(dims, BLOCKED)
+    def idx(i, row):
+        v = [0, 0, 0]
+        v[axis] = i
+        v[other] = row
+        return tuple(v)
+    chan = rng.integers(0, 6, size=L)
+    for i in range(L):
+        E[idx(i, 0)] = chan[i]
+    pocket_i = int(rng.integers(0, L))
+    E[idx(pocket_i, 2)] = int(rng.integers(0, 3))
+    if L >= 5 and rng.random() < 0.5:            # a second, two-voxel pocket
+        E[idx((pocket_i + 2) % L, 2)] = 1
+    peaks = [list(idx(pocket_i, 2))]
+    order = list(rng.permutation(L))[:min(3, L)]
+    peaks += [list(idx(int(i), 0)) for i in order]
+    if rng.random() < 0.5:
+        peaks = peaks[1:2] + peaks[:1] + peaks[2:]        # pocket second
+    return E, peaks, 'xyz'[axis]
+
+
+def perc_record_fixed(b, E, peaks, perc):
+    from pymatgen.core import Lattice
+    from gemdat.volume import FreeEnergyVolume
+    F = FreeEnergyVolume(data=to_energy(E, 'sum'), lattice=Lattice.cubic(5.0))
+    p = F.optimal_percolating_path(peaks=np.array(peaks), percolate=perc)
+    pv = [1 if c in perc else 0 for c in 'xyz']
+    rec = {'b': b, 'act': 'Percolate', 'E': E.tolist(), 'perc': pv, 'peaks': [[int(x) for x in q] for q in peaks], 'none': p is None,
+           'sites': [], 'energy': [], 'wrapped': [], 'fracInCell': True, 'meta': {'percolate': perc, 'kind': 'channel+pocket'}}
+    if p is not None:
+        rec['sites'] = [[int(x) for x in s] for s in p.sites]
+        rec['energy'] = [int(round(v)) if abs(v - round(v)) < 1e-9 else -999999 for v in p.energy]
+        rec['wrapped'] = [[int(x) for x in s] for s in p.wrapped_sites()]
+        fs = np.asarray(p.frac_sites())
+        exp_fs = (np.array(rec['wrapped']) + 0.5) / np.array(E.shape)
+        rec['fracInCell'] = bool(np.all((fs >= 0) & (fs < 1)) and np.allclose(fs, exp_fs, atol=1e-12))
+    return rec
